@@ -28,3 +28,15 @@ FloatCmp.vos FloatCmp.vok FloatCmp.required_vos: FloatCmp.v NumSig.vos
 ReservoirThms.vo ReservoirThms.glob ReservoirThms.v.beautified ReservoirThms.required_vo: ReservoirThms.v NumSig.vo MinPrinciple.vo Tridiag.vo Interp.vo Reservoir.vo
 ReservoirThms.vio: ReservoirThms.v NumSig.vio MinPrinciple.vio Tridiag.vio Interp.vio Reservoir.vio
 ReservoirThms.vos ReservoirThms.vok ReservoirThms.required_vos: ReservoirThms.v NumSig.vos MinPrinciple.vos Tridiag.vos Interp.vos Reservoir.vos
+InterpThms.vo InterpThms.glob InterpThms.v.beautified InterpThms.required_vo: InterpThms.v NumSig.vo Interp.vo
+InterpThms.vio: InterpThms.v NumSig.vio Interp.vio
+InterpThms.vos InterpThms.vok InterpThms.required_vos: InterpThms.v NumSig.vos Interp.vos
+ShiftThms.vo ShiftThms.glob ShiftThms.v.beautified ShiftThms.required_vo: ShiftThms.v NumSig.vo Tridiag.vo Interp.vo Reservoir.vo InterpThms.vo
+ShiftThms.vio: ShiftThms.v NumSig.vio Tridiag.vio Interp.vio Reservoir.vio InterpThms.vio
+ShiftThms.vos ShiftThms.vok ShiftThms.required_vos: ShiftThms.v NumSig.vos Tridiag.vos Interp.vos Reservoir.vos InterpThms.vos
+ObjectSM.vo ObjectSM.glob ObjectSM.v.beautified ObjectSM.required_vo: ObjectSM.v 
+ObjectSM.vio: ObjectSM.v 
+ObjectSM.vos ObjectSM.vok ObjectSM.required_vos: ObjectSM.v 
+SolverOracle.vo SolverOracle.glob SolverOracle.v.beautified SolverOracle.required_vo: SolverOracle.v NumSig.vo Tridiag.vo Reservoir.vo
+SolverOracle.vio: SolverOracle.v NumSig.vio Tridiag.vio Reservoir.vio
+SolverOracle.vos SolverOracle.vok SolverOracle.required_vos: SolverOracle.v NumSig.vos Tridiag.vos Reservoir.vos
